@@ -433,6 +433,16 @@ def elementwise(fname, *args):
     return _result(axes, t)
 
 
+def with_out(result, out):
+    """ufunc(..., out=arr): the result is written into `arr` (which is returned)"""
+    if out is None:
+        return result
+    if not isinstance(out, AArr):
+        raise ModelAbort("out= is not an array")
+    setitem(out, Ellipsis, result)
+    return out
+
+
 def zeros(shape, value=0, what="np.zeros"):
     axes = []
     if isinstance(shape, (int,)):
@@ -568,12 +578,53 @@ def einsum(spec: str, *ops):
 
 # ---- indexing --------------------------------------------------------------------------------------
 class Mesh:
-    """k-th of m open-mesh index arrays made by np.ix_"""
+    """k-th of m open-mesh index arrays made by np.ix_ (or by reshaping a 1-d position array to shape (1,..,n,..,1))"""
     def __init__(self, k, m, positions):
         self.k, self.m, self.positions = k, m, list(positions)
 
     def __repr__(self):
         return f"Mesh({self.k}/{self.m},{self.positions})"
+
+    @property
+    def shape(self):
+        return tuple(len(self.positions) if i == self.k else 1 for i in range(self.m))
+
+    @property
+    def ndim(self):
+        return self.m
+
+
+class IdxArr:
+    """a 1-d integer array of item positions (np.asarray(list of positions))"""
+    def __init__(self, positions):
+        self.positions = list(positions)
+
+    @property
+    def shape(self):
+        return (len(self.positions),)
+
+    @property
+    def ndim(self):
+        return 1
+
+    def reshape(self, *shape):
+        shape = shape[0] if len(shape) == 1 and isinstance(shape[0], (tuple, list)) else shape
+        shape = [int(x) for x in shape]
+        n = len(self.positions)
+        if -1 in shape:
+            shape[shape.index(-1)] = n
+        big = [i for i, x in enumerate(shape) if x != 1]
+        prod = 1
+        for x in shape:
+            prod *= x
+        if prod != n:
+            raise NumpyRaise("ValueError", f"cannot reshape array of size {n} into shape {tuple(shape)}")
+        if len(big) > 1:
+            raise ModelAbort("index array reshaped to more than one long axis")
+        return Mesh(big[0] if big else 0, len(shape), self.positions)
+
+    def __repr__(self):
+        return f"IdxArr({self.positions})"
 
 
 NEWAXIS = None
@@ -641,6 +692,8 @@ def index_plan(a: AArr, idx):
             per.append(("int", k, _positions(ax, [x], "index")[0]))
         elif isinstance(x, Mesh):
             per.append(("mesh", k, x))
+        elif isinstance(x, IdxArr):
+            per.append(("list", k, _positions(ax, x.positions, "index array")))
         elif isinstance(x, (list, tuple)):
             if any(isinstance(p, (list, tuple)) for p in x):
                 raise ModelAbort("nested index list")
@@ -855,7 +908,9 @@ def moveaxis(a: AArr, src, dst):
 def expand_dims(a: AArr, axis):
     a.check_fresh()
     axes = list(a.axes)
-    axs = sorted(int(x) % (a.ndim + 1) for x in (axis if isinstance(axis, (tuple, list)) else [axis]))
+    req = list(axis) if isinstance(axis, (tuple, list)) else [axis]
+    n_out = a.ndim + len(req)
+    axs = sorted(int(x) % n_out for x in req)
     for k in axs:
         axes.insert(k, ONE)
     return AArr(axes, a.term, a.buf, view=True)
